@@ -1,6 +1,7 @@
 import ComposeVerif.Model.C10Pipeline
 import ComposeVerif.Props.C10Glue
 import ComposeVerif.Props.C10Opts
+import ComposeVerif.Props.C10Rules
 /-!
 # C10 — accepted ⇒ consistent, stated for the composed pipeline (round 6)
 
@@ -18,6 +19,9 @@ the consistency check):
   on comes from a `ValidTree` and is `ConsistentFull` / `Consistent` (it is `postState` of the decoded project);
 * `loadProject_rejects` — the converse for the whole function; `loadProject_skip_frame` — a skipped check neither rejects
   nor writes;
+* `load_rejects_external_volume`, `load_rejects_secret_sources`, `load_rejects_config_sources`, `load_rejects_gpus_count_and_ids`,
+  `load_rejects_blank_watch_path`, `loadProject_rejects_broken_rule` — the converse clauses of the property one by one;
+* `loadY_ok_validated`, `loadY_rejects_invalid_tree` — the same for files given as YAML text (`Pipeline.loadY`);
 * `validateStage_cast_invariant` — the verdict of the stage inside the pipeline does not depend on whether the `external`
   leaves were cast (interpolation on) or not (`SkipInterpolation`).
 -/
@@ -162,5 +166,94 @@ theorem loadProject_skip_frame (c : Cfg) (decode : Val.KVs → Proj) (docs : Lis
   unfold loadProject
   rw [h]
   rfl
+
+/-! ## the converse clauses of the property, one by one, for the composed pipeline
+
+Each is `load_rejects_invalid_tree` applied to the whole-tree rejection theorem of the rule: whatever the documents, the
+option flags other than `SkipValidation`, and the rest of the merged tree. -/
+
+/-- an external volume declared (as a boolean) together with a creation parameter -/
+theorem load_rejects_external_volume (c : Cfg) (hv : c.opts.skipValidation = false) (docs : List Val.KVs)
+    (top vols kvs : Val.KVs) (name k : String) (x : Val) (hd : validatedTree c docs = .ok (.map top))
+    (h1 : ("volumes", Val.map vols) ∈ top) (h2 : (name, Val.map kvs) ∈ vols)
+    (hext : Val.lookup "external" kvs = some (.bool true)) (hk : (k, x) ∈ kvs) (hbad : externalAllowed k = false) :
+    ∀ m, load c docs ≠ .ok m :=
+  load_rejects_invalid_tree c hv docs _ hd fun hvalid =>
+    validate_rejects_external_volume_with_parameters top vols kvs name k x h1 h2 hext hk hbad ((validate_iff _).mpr hvalid)
+
+/-- a secret with none (and no driver / external) or several of its mutually exclusive sources -/
+theorem load_rejects_secret_sources (c : Cfg) (hv : c.opts.skipValidation = false) (docs : List Val.KVs)
+    (top secs kvs : Val.KVs) (name : String) (hd : validatedTree c docs = .ok (.map top))
+    (h1 : ("secrets", Val.map secs) ∈ top) (h2 : (name, Val.map kvs) ∈ secs)
+    (hbad : countPresent ["file", "environment"] kvs > 1 ∨
+      (countPresent ["file", "environment"] kvs = 0 ∧ has "driver" kvs = false ∧ has "external" kvs = false)) :
+    ∀ m, load c docs ≠ .ok m :=
+  load_rejects_invalid_tree c hv docs _ hd fun hvalid =>
+    validate_rejects_secret_sources top secs kvs name h1 h2 hbad ((validate_iff _).mpr hvalid)
+
+/-- a config with none (and no driver / external) or several of its mutually exclusive sources -/
+theorem load_rejects_config_sources (c : Cfg) (hv : c.opts.skipValidation = false) (docs : List Val.KVs)
+    (top cfgs kvs : Val.KVs) (name : String) (hd : validatedTree c docs = .ok (.map top))
+    (h1 : ("configs", Val.map cfgs) ∈ top) (h2 : (name, Val.map kvs) ∈ cfgs)
+    (hbad : countPresent ["file", "environment", "content"] kvs > 1 ∨
+      (countPresent ["file", "environment", "content"] kvs = 0 ∧ has "driver" kvs = false ∧ has "external" kvs = false)) :
+    ∀ m, load c docs ≠ .ok m :=
+  load_rejects_invalid_tree c hv docs _ hd fun hvalid =>
+    validate_rejects_config_sources top cfgs kvs name h1 h2 hbad ((validate_iff _).mpr hvalid)
+
+/-- a `gpus` device request with both `count` and `device_ids`, in any service -/
+theorem load_rejects_gpus_count_and_ids (c : Cfg) (hv : c.opts.skipValidation = false) (docs : List Val.KVs)
+    (top svcs svc kvs : Val.KVs) (name : String) (gpus : List Val) (hd : validatedTree c docs = .ok (.map top))
+    (h1 : ("services", Val.map svcs) ∈ top) (h2 : (name, Val.map svc) ∈ svcs) (h3 : ("gpus", Val.seq gpus) ∈ svc)
+    (h4 : Val.map kvs ∈ gpus) (hc : has "count" kvs = true) (hi : has "device_ids" kvs = true) :
+    ∀ m, load c docs ≠ .ok m :=
+  load_rejects_invalid_tree c hv docs _ hd fun hvalid =>
+    validate_rejects_gpus_count_and_ids top svcs svc kvs name gpus h1 h2 h3 h4 hc hi ((validate_iff _).mpr hvalid)
+
+/-- a blank `develop.watch.*.path`, in any service -/
+theorem load_rejects_blank_watch_path (c : Cfg) (hv : c.opts.skipValidation = false) (docs : List Val.KVs)
+    (top svcs svc dev trig : Val.KVs) (name : String) (watch : List Val) (hd : validatedTree c docs = .ok (.map top))
+    (h1 : ("services", Val.map svcs) ∈ top) (h2 : (name, Val.map svc) ∈ svcs) (h3 : ("develop", Val.map dev) ∈ svc)
+    (h4 : ("watch", Val.seq watch) ∈ dev) (h5 : Val.map trig ∈ watch) (h6 : ("path", Val.str "") ∈ trig) :
+    ∀ m, load c docs ≠ .ok m :=
+  load_rejects_invalid_tree c hv docs _ hd fun hvalid =>
+    validate_rejects_blank_watch_path top svcs svc dev trig name watch h1 h2 h3 h4 h5 h6 ((validate_iff _).mpr hvalid)
+
+/-- the consistency half, rule by rule: a decoded project in which some enabled service breaks one of the nineteen rules, a
+secret has no source, or the dependency graph has a cycle, is not returned -/
+theorem loadProject_rejects_broken_rule (c : Cfg) (hv : c.opts.skipValidation = false) (decode : Val.KVs → Proj)
+    (hnd : ∀ m, (decode m).enabled.Nodup) (docs : List Val.KVs) (m : Val.KVs) (hm : load c docs = .ok m)
+    (hbad : ¬ Consistent (decode m)) : ∀ p, loadProject c false decode docs ≠ .ok p := by
+  intro p h
+  obtain ⟨_, m', hm', _, hfull, _⟩ := loadProject_accepted_consistent c hv decode hnd docs p h
+  rw [hm] at hm'
+  cases hm'
+  exact hbad hfull.consistent
+
+/-! ## the same for files given as YAML text (`Pipeline.loadY`: several `---` documents per file, `!reset` / `!override`) -/
+
+/-- a load from YAML text that succeeds with validation on validated a `ValidTree` -/
+theorem loadY_ok_validated (c : Cfg) (hv : c.opts.skipValidation = false) (files : List (List Reset.YNode)) (m : Val.KVs)
+    (h : loadY c files = .ok m) : ∃ d, validatedTreeY c files = .ok d ∧ ValidTree d := by
+  unfold loadY at h
+  split at h
+  · cases h
+  · obtain ⟨m', hm', _⟩ := bind_ok h
+    unfold loadYamlModelY at hm'
+    obtain ⟨merged, hmerged, hfin⟩ := bind_ok hm'
+    obtain ⟨d, hd, hvalid⟩ := finishModel_ok_validated c hv merged m' hfin
+    refine ⟨d, ?_, hvalid⟩
+    unfold validatedTreeY
+    rw [hmerged]
+    exact hd
+
+/-- … and a merged tree that breaks a structural rule does not load, whatever `!reset` / `!override` tags produced it -/
+theorem loadY_rejects_invalid_tree (c : Cfg) (hv : c.opts.skipValidation = false) (files : List (List Reset.YNode)) (d : Val)
+    (hd : validatedTreeY c files = .ok d) (hbad : ¬ ValidTree d) : ∀ m, loadY c files ≠ .ok m := by
+  intro m h
+  obtain ⟨d', hd', hvalid⟩ := loadY_ok_validated c hv files m h
+  rw [hd] at hd'
+  cases hd'
+  exact hbad hvalid
 
 end CV.C10Whole
